@@ -56,6 +56,15 @@ pub trait Transport {
     fn send(&mut self, conn: u64, data: &[u8]) -> GDResult<()>;
     fn receive(&mut self, conn: u64, size: Option<usize>) -> GDResult<Vec<u8>>;
     fn close(&mut self, conn: u64);
+    /// New timeouts are being applied to an existing socket.
+    fn apply_timeout(
+        &mut self,
+        _conn: u64,
+        _read: Option<std::time::Duration>,
+        _write: Option<std::time::Duration>,
+    ) -> GDResult<()> {
+        Ok(())
+    }
 }
 
 thread_local! {
@@ -81,6 +90,7 @@ impl Scripted {
     fn new(kind: Kind, address: &SocketAddr, timeouts: &Option<TimeoutSettings>) -> Option<GDResult<Self>> {
         with_transport(|t| {
             t.map(|t| {
+                Self::read_write_like_a_real_socket(timeouts);
                 t.connect(kind, address, timeouts).map(|conn| {
                     Self {
                         conn,
@@ -89,6 +99,24 @@ impl Scripted {
                 })
             })
         })
+    }
+
+    /// The real sockets unwrap the result of set_read_timeout /
+    /// set_write_timeout, and std refuses a zero duration: behave the same.
+    fn read_write_like_a_real_socket(
+        timeout_settings: &Option<TimeoutSettings>,
+    ) -> (Option<std::time::Duration>, Option<std::time::Duration>) {
+        let (read, write) = TimeoutSettings::get_read_and_write_or_defaults(timeout_settings);
+        for duration in [read, write].into_iter().flatten() {
+            if duration.is_zero() {
+                Err::<(), _>(std::io::Error::new(
+                    std::io::ErrorKind::InvalidInput,
+                    "cannot set a 0 duration timeout",
+                ))
+                .unwrap();
+            }
+        }
+        (read, write)
     }
 
     fn send(&mut self, data: &[u8]) -> GDResult<()> {
@@ -105,6 +133,16 @@ impl Scripted {
             match t {
                 Some(t) => t.receive(self.conn, size),
                 None => Err(crate::GDErrorKind::PacketReceive.context("verif transport removed")),
+            }
+        })
+    }
+
+    fn apply_timeout(&self, timeout_settings: &Option<TimeoutSettings>) -> GDResult<()> {
+        let (read, write) = Self::read_write_like_a_real_socket(timeout_settings);
+        with_transport(|t| {
+            match t {
+                Some(t) => t.apply_timeout(self.conn, read, write),
+                None => Ok(()),
             }
         })
     }
@@ -139,7 +177,7 @@ macro_rules! verif_socket {
             fn apply_timeout(&self, timeout_settings: &Option<TimeoutSettings>) -> GDResult<()> {
                 match &self.0 {
                     Inner::Real(s) => s.apply_timeout(timeout_settings),
-                    Inner::Scripted(_) => Ok(()),
+                    Inner::Scripted(s) => s.apply_timeout(timeout_settings),
                 }
             }
 
